@@ -151,6 +151,8 @@ def run_property(prop, tier, repo, seed, write=True, quiet=False):
         engine_errors.append('internal error:\n' + traceback.format_exc())
 
     thorough_extra = {}
+    if ctx is not None:
+        engine_errors += sorted(getattr(ctx, 'blind_spots', ()))
     if tier == 'thorough' and ctx is not None and not engine_errors and os.environ.get('KCHECK_NO_SELFCHECK') != '1':
         try:
             thorough_extra = thorough_extras(prop, repo, ctx)
